@@ -2,8 +2,8 @@
    complete for ANY decomposition (literals, pre, post) that satisfies `Decomp`, for all inputs.
    Stated for the plain reading of a string (ascii, not wide, no fullword), which is all a hex string
    can have; `nocase` and `dot_all` are arbitrary. *)
-From Boreal Require Import Base.Prelude Spec.Regex Model.Widen Model.Validator Model.Raw Model.HirScan
-  Proofs.RegexBasics Proofs.HexScanProofs.
+From Boreal Require Import Base.Prelude Spec.Regex Model.Widen Model.Validator Model.SimpleValidator Model.Raw Model.HirScan
+  Proofs.RegexBasics Proofs.RegexStruct Proofs.SimpleProofs Proofs.HexScanProofs.
 From Coq Require Import Sorted.
 
 Definition plain (md : mods) : Prop := m_wide md = false /\ m_fullword md = false.
@@ -60,6 +60,26 @@ Proof. intros [Hw _]. unfold dfa_fwd, use_custom. rewrite Hw. reflexivity. Qed.
 Lemma plain_dfa_rev md h mem lo e : plain md ->
   dfa_rev md h MAscii mem lo e = if lo <=? e then rev_min_start (flags_of md) mem h lo e else None.
 Proof. intros [Hw _]. unfold dfa_rev, use_custom. rewrite Hw. reflexivity. Qed.
+
+(* the simple walker, when chosen, answers what the DFA would (Proofs/SimpleProofs.v) *)
+Lemma half_fwd_eq md h mem start lim : plain md -> lim <= nlen mem ->
+  half_fwd md h MAscii mem start lim = dfa_fwd md h MAscii mem start lim.
+Proof.
+  intros Hp Hl. unfold half_fwd. destruct (simple_new md h false) as [sv|] eqn:E; [|reflexivity].
+  rewrite plain_dfa_fwd by exact Hp. destruct (start <=? lim) eqn:E1.
+  - apply simple_fwd_correct; [exact E|lia].
+  - unfold lf_end. destruct (filter _ _) as [|j r] eqn:Ef; [reflexivity|].
+    assert (Hj : In j (filter (fun j => j <=? lim) (ends (flags_of md) mem h start))) by (rewrite Ef; left; reflexivity).
+    apply filter_In in Hj as [Hj1 Hj2]. apply ends_ge in Hj1. lia.
+Qed.
+
+Lemma half_rev_eq md h mem lo e : plain md -> e <= nlen mem ->
+  half_rev md h MAscii mem lo e = dfa_rev md h MAscii mem lo e.
+Proof.
+  intros Hp Hl. unfold half_rev. destruct (simple_new md h true) as [sv|] eqn:E; [|reflexivity].
+  rewrite plain_dfa_rev by exact Hp. destruct (lo <=? e) eqn:E1; [|reflexivity].
+  apply simple_rev_correct; [exact E|lia].
+Qed.
 
 (* ------------------------------------------------------------------ the two searches *)
 Lemma lf_end_In fl mem h i lim e : lf_end fl mem h i lim = Some e -> In e (ends fl mem h i) /\ e <= lim.
@@ -410,15 +430,15 @@ Section Process.
 
   Lemma validate_ng_In fwd rev ms me sp s e :
     In (s, e) (validate_nongreedy (nlen mem) fwd rev ms me sp) ->
-    (match fwd with Some f => exists lim, f ms lim = Some e | None => e = me end) /\
+    (match fwd with Some f => exists lim, lim <= nlen mem /\ f ms lim = Some e | None => e = me end) /\
     (match rev with Some rv => exists st, rv st me = Some s | None => s = ms end).
   Proof.
     unfold validate_nongreedy.
     destruct fwd as [f|].
     - destruct (f ms _) as [e0|] eqn:E; [|intros []].
       destruct rev as [rv|].
-      + intros H. apply rev_loop_sound in H as (st & H1 & [= <-]). split; eauto.
-      + intros [[= <- <-]|[]]. split; eauto.
+      + intros H. apply rev_loop_sound in H as (st & H1 & [= <-]). split; [exists (N.min (nlen mem) (sat_add ms MAX_SPLIT_MATCH_LENGTH)); split; [lia|exact E]|eauto].
+      + intros [[= <- <-]|[]]. split; [exists (N.min (nlen mem) (sat_add ms MAX_SPLIT_MATCH_LENGTH)); split; [lia|exact E]|reflexivity].
     - destruct rev as [rv|].
       + intros H. apply rev_loop_sound in H as (st & H1 & [= <-]). split; eauto.
       + intros [[= <- <-]|[]]. split; eauto.
@@ -444,11 +464,13 @@ Section Process.
       apply filter_In in Hse as [Hse _]. apply validate_ng_In in Hse as [H1 H2].
       apply M_good. apply (Hg l ms); [exact Hl|exact Hocc| |].
       + unfold pre_ok. fold md. destruct (s_pre d) as [q|]; cbn [option_map] in H2.
-        * destruct H2 as (st & H2). rewrite plain_dfa_rev in H2 by exact Hp.
+        * destruct H2 as (st & H2). rewrite half_rev_eq in H2 by (try exact Hp; destruct Hocc; lia).
+          rewrite plain_dfa_rev in H2 by exact Hp.
           destruct (st <=? _); [|discriminate]. apply rev_min_start_spec in H2 as (_ & H2 & _). exact H2.
         * exact H2.
       + unfold post_ok. fold md. destruct (s_post d) as [q|]; cbn [option_map] in H1.
-        * destruct H1 as (lim & H1). rewrite plain_dfa_fwd in H1 by exact Hp. apply lf_end_In in H1 as [H1 _]. exact H1.
+        * destruct H1 as (lim & Hlim & H1). rewrite half_fwd_eq in H1 by assumption.
+          rewrite plain_dfa_fwd in H1 by exact Hp. apply lf_end_In in H1 as [H1 _]. exact H1.
         * exact H1.
     - (* Greedy: the end comes from the whole pattern *)
       rewrite Kpre in Hse. apply filter_In in Hse as [Hse _]. unfold validate_greedy in Hse.
@@ -467,7 +489,8 @@ Section Process.
     - destruct (validate_fullword _ _ _ _ _); [|destruct Hse]. destruct Hse as [[= <- <-]|[]]. lia.
     - apply filter_In in Hse as [Hse _]. apply validate_ng_In in Hse as [_ H2].
       destruct (s_pre d) as [q|]; cbn [option_map] in H2.
-      + destruct H2 as (st & H2). rewrite plain_dfa_rev in H2 by exact Hp.
+      + destruct H2 as (st & H2). rewrite half_rev_eq in H2 by (try exact Hp; lia).
+        rewrite plain_dfa_rev in H2 by exact Hp.
         destruct (st <=? _); [|discriminate]. apply rev_min_start_spec in H2 as (H2 & _). lia.
       + lia.
     - rewrite Kpre in Hse. apply filter_In in Hse as [Hse _]. unfold validate_greedy in Hse.
@@ -497,19 +520,20 @@ Section Process.
       exists (s + nlen l). split; [exact Hh|]. rewrite plain_fullword by exact Hp. left. reflexivity.
     - (* NonGreedy *)
       assert (Hend : exists e,
-                match option_map (fun h0 => dfa_fwd md h0 MAscii mem) (s_post d) with
+                match option_map (fun h0 => half_fwd md h0 MAscii mem) (s_post d) with
                 | Some f => f s (N.min (nlen mem) (sat_add s MAX_SPLIT_MATCH_LENGTH))
                 | None => Some (s + nlen l)
                 end = Some e).
       { unfold post_ok in Hpost. fold md in Hpost. destruct (s_post d) as [p|]; cbn [option_map].
-        - rewrite plain_dfa_fwd by exact Hp. eapply lf_end_some; eauto.
+        - rewrite half_fwd_eq by (try exact Hp; lia). rewrite plain_dfa_fwd by exact Hp. eapply lf_end_some; eauto.
         - eauto. }
       destruct Hend as (e & He). exists e. split; [exact Hh|].
       apply filter_In. split; [|apply plain_fullword; exact Hp].
       unfold validate_nongreedy. rewrite He.
       unfold pre_ok in Hpre. fold md in Hpre. destruct (s_pre d) as [q|]; cbn [option_map].
       + eapply rev_loop_complete with (Q := fun x => In (s + nlen l) (ends (flags_of md) mem q x)).
-        * apply least_start_dfa_rev. exact Hp.
+        * intros lo. rewrite half_rev_eq by (try exact Hp; destruct Hocc; lia).
+          apply least_start_dfa_rev. exact Hp.
         * lia.
         * exact Hpre.
         * reflexivity.
